@@ -133,6 +133,8 @@ package gkvlite
 //@ ghost io.minoff (Array Int Int)
 //@ ghost io.lasttrunc (Array Int Int)
 //@ ghost io.valbytes Int
+//@ ghost tvs (Array Int Tree)
+//@ ghost ias (Array Int Int)
 //@ ghost net (Array Int Int)
 //@ ghost src.file (Array Int Int)
 //@ ghost src.off (Array Int Int)
@@ -415,6 +417,8 @@ package gkvlite
 //@   props C13 C17
 //@   requires [C05,C18] nolocks: locks == emptyLocks()
 //@   requires iloc != nil && c != nil && c.store != nil
+//@   relies item-bytes-consistent: (!emptyLoc(iloc.loc) ==> ibytes(ias[iloc]) == iloc.loc.Length - 16) && (emptyLoc(iloc.loc) && iloc.item != nil ==> ibytes(ias[iloc]) == len(iloc.item.Key) + vlenOf(c.store, iloc.item))
+//@   ensures [C13] denotes: !emptyLoc(iloc.loc) || iloc.item != nil ==> result == ibytes(ias[iloc])
 //@   ensures [C13] persisted: !emptyLoc(iloc.loc) ==> result == iloc.loc.Length - 16
 //@   ensures [C13,C17] unpersisted: emptyLoc(iloc.loc) && iloc.item != nil ==> result == len(iloc.item.Key) + vlenOf(c.store, iloc.item)
 //@   ensures [C13] neither: emptyLoc(iloc.loc) && iloc.item == nil ==> result == 0
@@ -422,7 +426,8 @@ package gkvlite
 //@ func (*itemLoc).Copy
 //@   props C01 C15
 //@   requires iloc != nil
-//@   modifies iloc.loc, iloc.item
+//@   modifies iloc.loc, iloc.item, ghost ias
+//@   postulate slot-denotes-what-the-source-denotes: src != nil ==> ias == upd(old(ias), iloc, old(ias)[src])
 //@   decreases src == nil ? 1 : 0
 //@   ensures src != nil ==> iloc.loc == old(src.loc) && iloc.item == old(src.item)
 //@   ensures src == nil ==> iloc.loc == nil && iloc.item == nil
@@ -452,7 +457,7 @@ package gkvlite
 //@   requires [C05,C18] nolocks: locks == emptyLocks()
 //@   from: C14 item record layout (decoder side of P1); C19 "key-only operations never read a byte of any item's value"; C15 accounting; C07 E1
 //@   requires c != nil && c.store != nil
-//@   requires iloc != nil && !emptyLoc(iloc.loc) ==> c.store.file != nil
+//@   relies persisted-locations-exist-only-in-file-backed-stores: iloc != nil && !emptyLoc(iloc.loc) ==> c.store.file != nil
 //@   relies record-start: iloc != nil && !emptyLoc(iloc.loc) ==> itemHeadAt(fbytes[c.store.file], iloc.loc.Offset)
 //@   relies slot-holds-ref: iloc != nil && iloc.item != nil && refcb(c.store) ==> net[iloc.item] >= 1
 //@   modifies iloc.item, new Item.Key, new Item.Val, new Item.Priority, new Item.Transient, new mem.byte, ghost net, ghost io.fails, ghost io.reads, ghost io.valbytes, ghost src
@@ -469,13 +474,14 @@ package gkvlite
 //@   ensures [C15] slot-backed: refcb(c.store) && err == nil && iloc != nil && iloc.item != nil ==> net[iloc.item] >= 1
 //@   ensures [C15] balance-loaded: refcb(c.store) && err == nil && icur != nil && fresh(icur) ==> net[icur] == 1 && (forall j :: j != icur && j != old(iloc.item) ==> net[j] == old(net[j])) && (old(iloc.item) != nil ==> net[old(iloc.item)] == old(net[old(iloc.item)]) - 1)
 //@   ensures [C15] balance-failed: refcb(c.store) && err != nil ==> forall j :: !fresh(j) ==> net[j] == old(net[j])
+//@   postulate item-denotes-the-slot: icur != nil ==> ia(icur) == ias[iloc] && ikey(ia(icur)) == ord(icur.Key) && ipri(ia(icur)) == icur.Priority
 
 //@ func (*nodeLoc).read
 //@   props C01 C02 C13 C14 C19 C07 C09
 //@   requires [C05,C18] nolocks: locks == emptyLocks()
 //@   from: C14 node record layout (decoder side of P1); C19 (one 52-byte read of the node record, no value bytes); C07 E1
 //@   requires o != nil
-//@   requires nloc != nil && nloc.node == nil && !emptyLoc(nloc.loc) ==> o.file != nil
+//@   relies persisted-locations-exist-only-in-file-backed-stores: nloc != nil && nloc.node == nil && !emptyLoc(nloc.loc) ==> o.file != nil
 //@   relies node-record-has-no-value-bytes: nloc != nil && !emptyLoc(nloc.loc) ==> noValueIn(fbytes[o.file], nloc.loc.Offset, nloc.loc.Offset + 52)
 //@   modifies nloc.node, o.nodeAllocs, new ploc.Offset, new ploc.Length, new node.numNodes, new node.numBytes, new node.next, new itemLoc.loc, new itemLoc.item, new nodeLoc.loc, new nodeLoc.node, new nodeLoc.next, new mem.byte, ghost io.fails, ghost io.reads, ghost io.valbytes, ghost src
 //@   ensures [C07] E1: io.fails >= old(io.fails) && (io.fails > old(io.fails) ==> err != nil)
@@ -489,6 +495,8 @@ package gkvlite
 //@   ensures [C02,C14] loaded-left: nloc != nil && old(nloc.node) == nil && !emptyLoc(nloc.loc) && err == nil ==> plocRecAt(fbytes[o.file], nloc.loc.Offset + 12, locOff(n.left.loc), locLen(n.left.loc)) && (n.left.loc == nil || !emptyLoc(n.left.loc)) && n.left.node == nil
 //@   ensures [C02,C14] loaded-right: nloc != nil && old(nloc.node) == nil && !emptyLoc(nloc.loc) && err == nil ==> plocRecAt(fbytes[o.file], nloc.loc.Offset + 24, locOff(n.right.loc), locLen(n.right.loc)) && (n.right.loc == nil || !emptyLoc(n.right.loc)) && n.right.node == nil
 //@   ensures [C02,C14,C13] loaded-aggregates: nloc != nil && old(nloc.node) == nil && !emptyLoc(nloc.loc) && err == nil ==> n.numNodes == fbe64(fbytes[o.file], nloc.loc.Offset + 36) && n.numBytes == fbe64(fbytes[o.file], nloc.loc.Offset + 44) && n.next == nil
+//@   postulate nil-means-empty: err == nil && n == nil ==> isLeaf(tvs[nloc])
+//@   postulate node-denotes-the-slot: n != nil ==> tv(n) == tvs[nloc] && nodeInv(n) && !isLeaf(tvs[nloc])
 
 // ---------------------------------------------------------------------------
 // store.go: the root record
@@ -520,17 +528,20 @@ package gkvlite
 // node.go / alloc.go: nodeLoc helpers, allocators and the reclaim protocol (C10 local obligations, C05 lock discipline)
 
 //@ global emptyNodeLoc.loc == nil && emptyNodeLoc.node == nil && emptyNodeLoc.next == nil
+//@ global isLeaf(tvs[nil]) && isLeaf(tvs[emptyNodeLoc])
 
 //@ func (*nodeLoc).isEmpty
 //@   props C01 C02
 //@   ensures result == emptyNL(nloc)
+//@   postulate empty-slot-denotes-the-empty-tree: result == isLeaf(tvs[nloc])
 
 //@ func (*nodeLoc).Copy
 //@   props C01 C10
 //@   requires nloc != nil
-//@   modifies nloc.loc, nloc.node
+//@   modifies nloc.loc, nloc.node, ghost tvs
 //@   decreases src == nil ? 1 : 0
 //@   ensures result == nloc
+//@   postulate slot-denotes-what-the-source-denotes: tvs == upd(old(tvs), nloc, old(tvs)[src])
 //@   ensures src != nil ==> nloc.loc == old(src.loc) && nloc.node == old(src.node)
 //@   ensures src == nil ==> nloc.loc == nil && nloc.node == nil
 
@@ -556,17 +567,19 @@ package gkvlite
 //@   props C10 C05 C01
 //@   from: code; A13: the result is either new or taken from the free list
 //@   requires t != nil && locks[freeNodeLocLock] == 0
-//@   modifies nodeLoc.loc, nodeLoc.node, nodeLoc.next, G.freeNodeLocs, AllocStats.MkNodeLocs, AllocStats.AllocNodeLocs, AllocStats.CurFreeNodeLocs
+//@   modifies nodeLoc.loc, nodeLoc.node, nodeLoc.next, G.freeNodeLocs, AllocStats.MkNodeLocs, AllocStats.AllocNodeLocs, AllocStats.CurFreeNodeLocs, ghost tvs
 //@   ensures [C10] init: result != nil && result.loc == nil && result.node == n && result.next == nil
 //@   proves [C10] R6-source: fresh(result) || (result == old(freeNodeLocs) && freeNodeLocs == old(result.next))
 //@   ensures [C10] R6-others-untouched: forall x :: x != result ==> nodeLoc.loc[x] == old(nodeLoc.loc[x]) && nodeLoc.node[x] == old(nodeLoc.node[x]) && nodeLoc.next[x] == old(nodeLoc.next[x])
 //@   postulate A13-fresh: fresh(result)
+//@   postulate slot-denotes-the-node: tvs == upd(old(tvs), result, n == nil ? leafTree() : tv(n))
 
 //@ func (*Collection).freeNodeLoc
 //@   props C10 C05
 //@   requires t != nil && locks[freeNodeLocLock] == 0
 //@   requires [C10] no-double-free: nloc == nil || nloc == emptyNodeLoc || nloc.next == nil
-//@   modifies nloc.loc, nloc.node, nloc.next, G.freeNodeLocs, AllocStats.CurFreeNodeLocs, AllocStats.FreeNodeLocs
+//@   modifies nloc.loc, nloc.node, nloc.next, G.freeNodeLocs, AllocStats.CurFreeNodeLocs, AllocStats.FreeNodeLocs, ghost tvs
+//@   postulate freed-slot-denotes-nothing: tvs == ((nloc == nil || nloc == emptyNodeLoc) ? old(tvs) : upd(old(tvs), nloc, leafTree()))
 //@   ensures [C10] nloc != nil && nloc != emptyNodeLoc ==> nloc.loc == nil && nloc.node == nil && nloc.next == old(freeNodeLocs) && freeNodeLocs == nloc
 //@   ensures [C10] sentinel-kept: nloc == nil || nloc == emptyNodeLoc ==> freeNodeLocs == old(freeNodeLocs)
 
@@ -596,8 +609,9 @@ package gkvlite
 //@   props C10 C05 C15 C13 C01 C17
 //@   from: code; C10 R6 (a node comes from the free list or is new, every field is overwritten); C15 (the copied item slot takes a reference); C13 (aggregates are stored as given)
 //@   requires t != nil && t.store != nil && locks == emptyLocks()
+//@   requires [C13] exact-aggregates: itemIn != nil ==> numNodesIn == cnt(tvs[leftIn]) + cnt(tvs[rightIn]) + 1 && numBytesIn == sumb(tvs[leftIn]) + sumb(tvs[rightIn]) + ibytes(ias[itemIn])
 //@   relies A13-free-list-head-is-unreferenced: freeNodes != nil ==> leftIn != ref(freeNodes.left) && leftIn != ref(freeNodes.right) && rightIn != ref(freeNodes.left) && rightIn != ref(freeNodes.right) && itemIn != ref(freeNodes.item)
-//@   modifies node.numNodes, node.numBytes, node.next, itemLoc.loc, itemLoc.item, nodeLoc.loc, nodeLoc.node, G.freeNodes, AllocStats.MkNodes, AllocStats.AllocNodes, AllocStats.CurFreeNodes, t.store.nodeAllocs, ghost net
+//@   modifies node.numNodes, node.numBytes, node.next, itemLoc.loc, itemLoc.item, nodeLoc.loc, nodeLoc.node, G.freeNodes, AllocStats.MkNodes, AllocStats.AllocNodes, AllocStats.CurFreeNodes, t.store.nodeAllocs, ghost net, ghost tvs, ghost ias
 //@   ensures [C10,C13] init: result != nil && result.numNodes == numNodesIn && result.numBytes == numBytesIn && result.next == nil
 //@   ensures [C10,C01] item-copied: (itemIn != nil ==> result.item.loc == old(itemIn.loc) && result.item.item == old(itemIn.item)) && (itemIn == nil ==> result.item.loc == nil && result.item.item == nil)
 //@   ensures [C10,C01] left-copied: (leftIn != nil ==> result.left.loc == old(leftIn.loc) && result.left.node == old(leftIn.node)) && (leftIn == nil ==> result.left.loc == nil && result.left.node == nil)
@@ -608,6 +622,8 @@ package gkvlite
 //@   ensures [C15] slot-takes-a-reference: itemIn != nil && old(itemIn.item) != nil && t.store.callbacks.ItemAddRef != nil ==> net[old(itemIn.item)] == old(net[old(itemIn.item)]) + 1
 //@   ensures [C15] nothing-else-counted: forall j :: (itemIn == nil || j != old(itemIn.item)) ==> net[j] == old(net[j])
 //@   postulate A13-fresh: fresh(result)
+//@   postulate slots-denote-the-inputs: tvs == upd(upd(old(tvs), ref(result.left), old(tvs)[leftIn]), ref(result.right), old(tvs)[rightIn]) && (forall y {ias[y]} :: y != ref(result.item) ==> ias[y] == old(ias)[y]) && (itemIn != nil ==> ias[ref(result.item)] == old(ias)[itemIn])
+//@   postulate tree-value-defined: itemIn != nil ==> tv(result) == mkTree(old(tvs)[leftIn], old(ias)[itemIn], old(tvs)[rightIn]) && nodeInv(result)
 
 //@ func (*Collection).freeNodeUnlocked
 //@   props C10 C05 C15
@@ -672,7 +688,7 @@ package gkvlite
 //@   relies not-on-the-free-list: r.next == nil
 //@   relies root-loc-not-on-the-free-list: r.root != nil ==> r.root.next == nil && standaloneNL(r.root)
 //@   relies chained-version-is-distinct: r.chainedRootNodeLoc != r
-//@   modifies rootNodeLoc.refs, rootNodeLoc.root, rootNodeLoc.next, rootNodeLoc.chainedCollection, rootNodeLoc.chainedRootNodeLoc, node.numNodes, node.numBytes, node.next, itemLoc.loc, itemLoc.item, nodeLoc.loc, nodeLoc.node, nodeLoc.next, mem.ptr, G.freeNodes, G.freeNodeLocs, G.freeRootNodeLocs, AllocStats.CurFreeNodes, AllocStats.FreeNodes, AllocStats.CurFreeNodeLocs, AllocStats.FreeNodeLocs, AllocStats.CurFreeRootNodeLocs, AllocStats.FreeRootNodeLocs, ghost net
+//@   modifies rootNodeLoc.refs, rootNodeLoc.root, rootNodeLoc.next, rootNodeLoc.chainedCollection, rootNodeLoc.chainedRootNodeLoc, node.numNodes, node.numBytes, node.next, itemLoc.loc, itemLoc.item, nodeLoc.loc, nodeLoc.node, nodeLoc.next, mem.ptr, G.freeNodes, G.freeNodeLocs, G.freeRootNodeLocs, AllocStats.CurFreeNodes, AllocStats.FreeNodes, AllocStats.CurFreeNodeLocs, AllocStats.FreeNodeLocs, AllocStats.CurFreeRootNodeLocs, AllocStats.FreeRootNodeLocs, ghost net, ghost tvs
 //@   decreases chainlen(r) + 1
 //@   ensures [C10,C04] R5-still-referenced-means-untouched: old(r.refs) > 1 ==> r.refs == old(r.refs) - 1 && freeNodes == old(freeNodes) && freeNodeLocs == old(freeNodeLocs) && freeRootNodeLocs == old(freeRootNodeLocs) && net == old(net) && node.next == old(node.next) && nodeLoc.node == old(nodeLoc.node) && nodeLoc.loc == old(nodeLoc.loc) && itemLoc.item == old(itemLoc.item) && rootNodeLoc.root == old(rootNodeLoc.root)
 //@   ensures [C10] R5-only-this-count: old(r.refs) > 1 ==> forall x :: x != r ==> rootNodeLoc.refs[x] == old(rootNodeLoc.refs[x])
@@ -692,7 +708,7 @@ package gkvlite
 //@   relies chained-collection-is-well-formed: r.chainedCollection != nil ==> r.chainedCollection.store != nil
 //@   relies not-on-the-free-list: r.next == nil
 //@   relies root-loc-not-on-the-free-list: r.root != nil ==> r.root.next == nil
-//@   modifies rootNodeLoc.refs, rootNodeLoc.root, rootNodeLoc.next, rootNodeLoc.chainedCollection, rootNodeLoc.chainedRootNodeLoc, node.numNodes, node.numBytes, node.next, itemLoc.loc, itemLoc.item, nodeLoc.loc, nodeLoc.node, nodeLoc.next, mem.ptr, G.freeNodes, G.freeNodeLocs, G.freeRootNodeLocs, AllocStats.CurFreeNodes, AllocStats.FreeNodes, AllocStats.CurFreeNodeLocs, AllocStats.FreeNodeLocs, AllocStats.CurFreeRootNodeLocs, AllocStats.FreeRootNodeLocs, ghost net
+//@   modifies rootNodeLoc.refs, rootNodeLoc.root, rootNodeLoc.next, rootNodeLoc.chainedCollection, rootNodeLoc.chainedRootNodeLoc, node.numNodes, node.numBytes, node.next, itemLoc.loc, itemLoc.item, nodeLoc.loc, nodeLoc.node, nodeLoc.next, mem.ptr, G.freeNodes, G.freeNodeLocs, G.freeRootNodeLocs, AllocStats.CurFreeNodes, AllocStats.FreeNodes, AllocStats.CurFreeNodeLocs, AllocStats.FreeNodeLocs, AllocStats.CurFreeRootNodeLocs, AllocStats.FreeRootNodeLocs, ghost net, ghost tvs
 //@   ensures [C10,C04,C05] R5-still-referenced-means-untouched: old(r.refs) > 1 ==> r.refs == old(r.refs) - 1 && freeNodes == old(freeNodes) && freeNodeLocs == old(freeNodeLocs) && freeRootNodeLocs == old(freeRootNodeLocs) && net == old(net) && node.next == old(node.next) && nodeLoc.node == old(nodeLoc.node) && nodeLoc.loc == old(nodeLoc.loc) && itemLoc.item == old(itemLoc.item) && rootNodeLoc.root == old(rootNodeLoc.root)
 //@   ensures [C10] R5-only-this-count: old(r.refs) > 1 ==> forall x :: x != r ==> rootNodeLoc.refs[x] == old(rootNodeLoc.refs[x])
 
@@ -729,7 +745,7 @@ package gkvlite
 //@   relies chained-collection-is-well-formed: t != nil && t.root != nil && t.root.chainedCollection != nil ==> t.root.chainedCollection.store != nil
 //@   relies not-on-the-free-list: t != nil && t.root != nil ==> t.root.next == nil
 //@   relies root-loc-not-on-the-free-list: t != nil && t.root != nil && t.root.root != nil ==> t.root.root.next == nil
-//@   modifies t.root, rootNodeLoc.refs, rootNodeLoc.root, rootNodeLoc.next, rootNodeLoc.chainedCollection, rootNodeLoc.chainedRootNodeLoc, node.numNodes, node.numBytes, node.next, itemLoc.loc, itemLoc.item, nodeLoc.loc, nodeLoc.node, nodeLoc.next, mem.ptr, G.freeNodes, G.freeNodeLocs, G.freeRootNodeLocs, AllocStats.CurFreeNodes, AllocStats.FreeNodes, AllocStats.CurFreeNodeLocs, AllocStats.FreeNodeLocs, AllocStats.CurFreeRootNodeLocs, AllocStats.FreeRootNodeLocs, ghost net
+//@   modifies t.root, rootNodeLoc.refs, rootNodeLoc.root, rootNodeLoc.next, rootNodeLoc.chainedCollection, rootNodeLoc.chainedRootNodeLoc, node.numNodes, node.numBytes, node.next, itemLoc.loc, itemLoc.item, nodeLoc.loc, nodeLoc.node, nodeLoc.next, mem.ptr, G.freeNodes, G.freeNodeLocs, G.freeRootNodeLocs, AllocStats.CurFreeNodes, AllocStats.FreeNodes, AllocStats.CurFreeNodeLocs, AllocStats.FreeNodeLocs, AllocStats.CurFreeRootNodeLocs, AllocStats.FreeRootNodeLocs, ghost net, ghost tvs
 //@   ensures [C04,C12] handle-closed: t != nil ==> t.root == nil
 //@   ensures [C04,C10,C12] R3-release-is-harmless: t != nil && old(t.root) != nil && old(t.root.refs) > 1 ==> old(t.root).refs == old(t.root.refs) - 1 && node.next == old(node.next) && nodeLoc.node == old(nodeLoc.node) && nodeLoc.loc == old(nodeLoc.loc) && itemLoc.item == old(itemLoc.item) && rootNodeLoc.root == old(rootNodeLoc.root) && freeNodes == old(freeNodes) && freeNodeLocs == old(freeNodeLocs) && freeRootNodeLocs == old(freeRootNodeLocs) && net == old(net)
 //@   ensures [C12] nil-handle-is-a-no-op: t == nil ==> node.next == old(node.next) && node.numNodes == old(node.numNodes) && node.numBytes == old(node.numBytes) && rootNodeLoc.refs == old(rootNodeLoc.refs) && rootNodeLoc.root == old(rootNodeLoc.root) && rootNodeLoc.next == old(rootNodeLoc.next) && rootNodeLoc.chainedCollection == old(rootNodeLoc.chainedCollection) && rootNodeLoc.chainedRootNodeLoc == old(rootNodeLoc.chainedRootNodeLoc) && itemLoc.loc == old(itemLoc.loc) && itemLoc.item == old(itemLoc.item) && nodeLoc.loc == old(nodeLoc.loc) && nodeLoc.node == old(nodeLoc.node) && nodeLoc.next == old(nodeLoc.next) && mem.ptr == old(mem.ptr) && freeNodes == old(freeNodes) && freeNodeLocs == old(freeNodeLocs) && freeRootNodeLocs == old(freeRootNodeLocs) && net == old(net)
@@ -799,7 +815,7 @@ package gkvlite
 //@   requires s != nil && locks == emptyLocks()
 //@   requires [C07] open-store: s.coll != nil && deref(s.coll) != nil
 //@   relies registered-handles-are-usable: forall k :: has(deref(s.coll), k) && deref(s.coll)[k] != nil ==> deref(s.coll)[k].rootLock != nil && deref(s.coll)[k].root != nil && deref(s.coll)[k].store != nil && deref(s.coll)[k].root.refs >= 1
-//@   modifies s.coll, cell.Int, map.ptr, map.dom, Collection.name, Collection.store, Collection.compare, Collection.rootLock, Collection.root, Collection.AppData, rootNodeLoc.refs, rootNodeLoc.root, rootNodeLoc.next, rootNodeLoc.superseded, rootNodeLoc.chainedCollection, rootNodeLoc.chainedRootNodeLoc, node.numNodes, node.numBytes, node.next, itemLoc.loc, itemLoc.item, nodeLoc.loc, nodeLoc.node, nodeLoc.next, mem.ptr, G.freeNodes, G.freeNodeLocs, G.freeRootNodeLocs, AllocStats.CurFreeNodes, AllocStats.FreeNodes, AllocStats.CurFreeNodeLocs, AllocStats.FreeNodeLocs, AllocStats.CurFreeRootNodeLocs, AllocStats.FreeRootNodeLocs, ghost net
+//@   modifies s.coll, cell.Int, map.ptr, map.dom, Collection.name, Collection.store, Collection.compare, Collection.rootLock, Collection.root, Collection.AppData, rootNodeLoc.refs, rootNodeLoc.root, rootNodeLoc.next, rootNodeLoc.superseded, rootNodeLoc.chainedCollection, rootNodeLoc.chainedRootNodeLoc, node.numNodes, node.numBytes, node.next, itemLoc.loc, itemLoc.item, nodeLoc.loc, nodeLoc.node, nodeLoc.next, mem.ptr, G.freeNodes, G.freeNodeLocs, G.freeRootNodeLocs, AllocStats.CurFreeNodes, AllocStats.FreeNodes, AllocStats.CurFreeNodeLocs, AllocStats.FreeNodeLocs, AllocStats.CurFreeRootNodeLocs, AllocStats.FreeRootNodeLocs, ghost net, ghost tvs
 //@   ensures [C12] registered: result != nil && fresh(result) && s.coll != nil && has(deref(s.coll), name) && deref(s.coll)[name] == result && result.store == s
 //@   ensures [C12] others-kept: forall k :: k != name ==> has(deref(s.coll), k) == old(has(deref(s.coll), k)) && (has(deref(s.coll), k) ==> deref(s.coll)[k] == old(deref(s.coll)[k]))
 //@   ensures [C12] comparator-installed: result.compare == (compare == nil ? funcref("bytes.Compare") : compare)
@@ -816,7 +832,7 @@ package gkvlite
 //@   requires s != nil && locks == emptyLocks()
 //@   requires [C07] open-store: s.coll != nil && deref(s.coll) != nil
 //@   relies registered-handles-are-usable: forall k :: has(deref(s.coll), k) && deref(s.coll)[k] != nil ==> deref(s.coll)[k].rootLock != nil && deref(s.coll)[k].store != nil
-//@   modifies s.coll, cell.Int, map.ptr, map.dom, Collection.root, rootNodeLoc.refs, rootNodeLoc.root, rootNodeLoc.next, rootNodeLoc.chainedCollection, rootNodeLoc.chainedRootNodeLoc, node.numNodes, node.numBytes, node.next, itemLoc.loc, itemLoc.item, nodeLoc.loc, nodeLoc.node, nodeLoc.next, mem.ptr, G.freeNodes, G.freeNodeLocs, G.freeRootNodeLocs, AllocStats.CurFreeNodes, AllocStats.FreeNodes, AllocStats.CurFreeNodeLocs, AllocStats.FreeNodeLocs, AllocStats.CurFreeRootNodeLocs, AllocStats.FreeRootNodeLocs, ghost net
+//@   modifies s.coll, cell.Int, map.ptr, map.dom, Collection.root, rootNodeLoc.refs, rootNodeLoc.root, rootNodeLoc.next, rootNodeLoc.chainedCollection, rootNodeLoc.chainedRootNodeLoc, node.numNodes, node.numBytes, node.next, itemLoc.loc, itemLoc.item, nodeLoc.loc, nodeLoc.node, nodeLoc.next, mem.ptr, G.freeNodes, G.freeNodeLocs, G.freeRootNodeLocs, AllocStats.CurFreeNodes, AllocStats.FreeNodes, AllocStats.CurFreeNodeLocs, AllocStats.FreeNodeLocs, AllocStats.CurFreeRootNodeLocs, AllocStats.FreeRootNodeLocs, ghost net, ghost tvs
 //@   ensures [C12] removed: s.coll != nil && !has(deref(s.coll), name)
 //@   ensures [C12] others-kept: forall k :: k != name ==> has(deref(s.coll), k) == old(has(deref(s.coll), k)) && (has(deref(s.coll), k) ==> deref(s.coll)[k] == old(deref(s.coll)[k]))
 //@   ensures [C12,C04] published-map-not-mutated: map.ptr[old(deref(s.coll))] == old(map.ptr[deref(s.coll)]) && map.dom[old(deref(s.coll))] == old(map.dom[deref(s.coll)])
@@ -872,7 +888,7 @@ package gkvlite
 
 //@ func (*Store).Flush$1
 //@   inline
-//@   loop 0 modifies rootNodeLoc.refs, rootNodeLoc.root, rootNodeLoc.next, rootNodeLoc.chainedCollection, rootNodeLoc.chainedRootNodeLoc, node.numNodes, node.numBytes, node.next, itemLoc.loc, itemLoc.item, nodeLoc.loc, nodeLoc.node, nodeLoc.next, mem.ptr, G.freeNodes, G.freeNodeLocs, G.freeRootNodeLocs, AllocStats.CurFreeNodes, AllocStats.FreeNodes, AllocStats.CurFreeNodeLocs, AllocStats.FreeNodeLocs, AllocStats.CurFreeRootNodeLocs, AllocStats.FreeRootNodeLocs, ghost net
+//@   loop 0 modifies rootNodeLoc.refs, rootNodeLoc.root, rootNodeLoc.next, rootNodeLoc.chainedCollection, rootNodeLoc.chainedRootNodeLoc, node.numNodes, node.numBytes, node.next, itemLoc.loc, itemLoc.item, nodeLoc.loc, nodeLoc.node, nodeLoc.next, mem.ptr, G.freeNodes, G.freeNodeLocs, G.freeRootNodeLocs, AllocStats.CurFreeNodes, AllocStats.FreeNodes, AllocStats.CurFreeNodeLocs, AllocStats.FreeNodeLocs, AllocStats.CurFreeRootNodeLocs, AllocStats.FreeRootNodeLocs, ghost net, ghost tvs
 //@   loop 0 invariant -1 <= rangeindex && rangeindex < len(cnames)
 //@   loop 0 decreases len(cnames) - rangeindex
 
@@ -883,7 +899,7 @@ package gkvlite
 //@   requires [C07] open-store: s.coll != nil && deref(s.coll) != nil
 //@   relies registered-handles-are-usable: forall k :: has(deref(s.coll), k) ==> deref(s.coll)[k] != nil && deref(s.coll)[k].rootLock != nil && deref(s.coll)[k].root != nil && deref(s.coll)[k].store == s && deref(s.coll)[k].root.refs >= 1
 //@   relies root-locks-are-private: forall k :: has(deref(s.coll), k) ==> deref(s.coll)[k].rootLock != ref(freeNodeLock) && deref(s.coll)[k].rootLock != ref(freeNodeLocLock) && deref(s.coll)[k].rootLock != ref(freeRootNodeLocLock)
-//@   modifies itemLoc.loc, nodeLoc.loc, s.size, rootNodeLoc.refs, rootNodeLoc.root, rootNodeLoc.next, rootNodeLoc.chainedCollection, rootNodeLoc.chainedRootNodeLoc, node.numNodes, node.numBytes, node.next, itemLoc.item, nodeLoc.node, nodeLoc.next, mem.ptr, G.freeNodes, G.freeNodeLocs, G.freeRootNodeLocs, AllocStats.CurFreeNodes, AllocStats.FreeNodes, AllocStats.CurFreeNodeLocs, AllocStats.FreeNodeLocs, AllocStats.CurFreeRootNodeLocs, AllocStats.FreeRootNodeLocs, new ploc.Offset, new ploc.Length, new mem.byte, new mem.Int, ghost fbytes, ghost flen, ghost io.fails, ghost io.writes, ghost io.minoff, ghost net
+//@   modifies itemLoc.loc, nodeLoc.loc, s.size, rootNodeLoc.refs, rootNodeLoc.root, rootNodeLoc.next, rootNodeLoc.chainedCollection, rootNodeLoc.chainedRootNodeLoc, node.numNodes, node.numBytes, node.next, itemLoc.item, nodeLoc.node, nodeLoc.next, mem.ptr, G.freeNodes, G.freeNodeLocs, G.freeRootNodeLocs, AllocStats.CurFreeNodes, AllocStats.FreeNodes, AllocStats.CurFreeNodeLocs, AllocStats.FreeNodeLocs, AllocStats.CurFreeRootNodeLocs, AllocStats.FreeRootNodeLocs, new ploc.Offset, new ploc.Length, new mem.byte, new mem.Int, ghost fbytes, ghost flen, ghost io.fails, ghost io.writes, ghost io.minoff, ghost net, ghost tvs
 //@   ensures [C07] E1: io.fails >= old(io.fails) && (io.fails > old(io.fails) ==> result != nil)
 //@   ensures [C04] read-only-store-refuses: s.readOnly ==> result != nil && fbytes == old(fbytes) && flen == old(flen) && s.size == old(s.size) && io.writes == old(io.writes)
 //@   ensures [C07] memory-only-store-refuses: s.file == nil ==> result != nil && s.size == old(s.size)
@@ -932,7 +948,7 @@ package gkvlite
 //@   requires s != nil && locks == emptyLocks()
 //@   requires [C07] open-store: s.coll != nil && deref(s.coll) != nil
 //@   relies registered-handles-are-usable: forall k :: has(deref(s.coll), k) && deref(s.coll)[k] != nil ==> deref(s.coll)[k].rootLock != nil && deref(s.coll)[k].store != nil
-//@   modifies s.size, s.coll, cell.Int, new map.ptr, new map.dom, Collection.root, rootNodeLoc.refs, rootNodeLoc.root, rootNodeLoc.next, rootNodeLoc.chainedCollection, rootNodeLoc.chainedRootNodeLoc, node.numNodes, node.numBytes, node.next, itemLoc.loc, itemLoc.item, nodeLoc.loc, nodeLoc.node, nodeLoc.next, mem.ptr, G.freeNodes, G.freeNodeLocs, G.freeRootNodeLocs, AllocStats.CurFreeNodes, AllocStats.FreeNodes, AllocStats.CurFreeNodeLocs, AllocStats.FreeNodeLocs, AllocStats.CurFreeRootNodeLocs, AllocStats.FreeRootNodeLocs, ghost net, ghost flen, ghost io.fails, ghost io.reads, ghost io.valbytes, ghost io.truncs, ghost io.lasttrunc, ghost src
+//@   modifies s.size, s.coll, cell.Int, new map.ptr, new map.dom, Collection.root, rootNodeLoc.refs, rootNodeLoc.root, rootNodeLoc.next, rootNodeLoc.chainedCollection, rootNodeLoc.chainedRootNodeLoc, node.numNodes, node.numBytes, node.next, itemLoc.loc, itemLoc.item, nodeLoc.loc, nodeLoc.node, nodeLoc.next, mem.ptr, G.freeNodes, G.freeNodeLocs, G.freeRootNodeLocs, AllocStats.CurFreeNodes, AllocStats.FreeNodes, AllocStats.CurFreeNodeLocs, AllocStats.FreeNodeLocs, AllocStats.CurFreeRootNodeLocs, AllocStats.FreeRootNodeLocs, ghost net, ghost flen, ghost io.fails, ghost io.reads, ghost io.valbytes, ghost io.truncs, ghost io.lasttrunc, ghost src, ghost tvs
 //@   ensures [C08] memory-only-store-refuses: s.file == nil ==> result != nil && s.size == old(s.size) && io.truncs == old(io.truncs) && flen == old(flen)
 //@   ensures [C07] E1: io.fails >= old(io.fails) && (io.fails > old(io.fails) ==> result != nil)
 //@   ensures [C09,C04] never-writes: fbytes == old(fbytes) && io.writes == old(io.writes)
@@ -941,7 +957,7 @@ package gkvlite
 //@   ensures [C09,C08] truncates-exactly-there: result == nil && !s.readOnly ==> io.truncs == old(io.truncs) + 1 && io.lasttrunc[s.file] == s.size && flen[s.file] == s.size
 //@   ensures [C04,C09] snapshot-never-truncates: s.readOnly ==> io.truncs == old(io.truncs) && flen == old(flen)
 //@   ensures [C09] at-most-one-truncate: io.truncs <= old(io.truncs) + 1 && (io.truncs > old(io.truncs) ==> io.lasttrunc[s.file] == s.size && (s.size == 0 || validRootEndingAt(fbytes[s.file], s.size)))
-//@   loop 0 modifies Collection.root, rootNodeLoc.refs, rootNodeLoc.root, rootNodeLoc.next, rootNodeLoc.chainedCollection, rootNodeLoc.chainedRootNodeLoc, node.numNodes, node.numBytes, node.next, itemLoc.loc, itemLoc.item, nodeLoc.loc, nodeLoc.node, nodeLoc.next, mem.ptr, G.freeNodes, G.freeNodeLocs, G.freeRootNodeLocs, AllocStats.CurFreeNodes, AllocStats.FreeNodes, AllocStats.CurFreeNodeLocs, AllocStats.FreeNodeLocs, AllocStats.CurFreeRootNodeLocs, AllocStats.FreeRootNodeLocs, ghost net
+//@   loop 0 modifies Collection.root, rootNodeLoc.refs, rootNodeLoc.root, rootNodeLoc.next, rootNodeLoc.chainedCollection, rootNodeLoc.chainedRootNodeLoc, node.numNodes, node.numBytes, node.next, itemLoc.loc, itemLoc.item, nodeLoc.loc, nodeLoc.node, nodeLoc.next, mem.ptr, G.freeNodes, G.freeNodeLocs, G.freeRootNodeLocs, AllocStats.CurFreeNodes, AllocStats.FreeNodes, AllocStats.CurFreeNodeLocs, AllocStats.FreeNodeLocs, AllocStats.CurFreeRootNodeLocs, AllocStats.FreeRootNodeLocs, ghost net, ghost tvs
 //@   loop 0 invariant true
 
 //@ func (*Store).Snapshot
@@ -968,13 +984,52 @@ package gkvlite
 //@   props C04 C09 C10 C15 C12
 //@   requires s != nil && locks == emptyLocks()
 //@   relies registered-handles-are-usable: s.coll != nil ==> deref(s.coll) != nil && (forall k :: has(deref(s.coll), k) && deref(s.coll)[k] != nil ==> deref(s.coll)[k].rootLock != nil && deref(s.coll)[k].store != nil)
-//@   modifies s.file, s.coll, new mem.Int, Collection.root, rootNodeLoc.refs, rootNodeLoc.root, rootNodeLoc.next, rootNodeLoc.chainedCollection, rootNodeLoc.chainedRootNodeLoc, node.numNodes, node.numBytes, node.next, itemLoc.loc, itemLoc.item, nodeLoc.loc, nodeLoc.node, nodeLoc.next, mem.ptr, G.freeNodes, G.freeNodeLocs, G.freeRootNodeLocs, AllocStats.CurFreeNodes, AllocStats.FreeNodes, AllocStats.CurFreeNodeLocs, AllocStats.FreeNodeLocs, AllocStats.CurFreeRootNodeLocs, AllocStats.FreeRootNodeLocs, ghost net
+//@   modifies s.file, s.coll, new mem.Int, Collection.root, rootNodeLoc.refs, rootNodeLoc.root, rootNodeLoc.next, rootNodeLoc.chainedCollection, rootNodeLoc.chainedRootNodeLoc, node.numNodes, node.numBytes, node.next, itemLoc.loc, itemLoc.item, nodeLoc.loc, nodeLoc.node, nodeLoc.next, mem.ptr, G.freeNodes, G.freeNodeLocs, G.freeRootNodeLocs, AllocStats.CurFreeNodes, AllocStats.FreeNodes, AllocStats.CurFreeNodeLocs, AllocStats.FreeNodeLocs, AllocStats.CurFreeRootNodeLocs, AllocStats.FreeRootNodeLocs, ghost net, ghost tvs
 //@   ensures [C04,C09] closed-without-file-effect: s.file == nil && s.coll == nil
 //@   ensures [C04] published-map-not-mutated: old(s.coll) != nil ==> map.ptr == old(map.ptr) && map.dom == old(map.dom)
-//@   loop 0 modifies Collection.root, rootNodeLoc.refs, rootNodeLoc.root, rootNodeLoc.next, rootNodeLoc.chainedCollection, rootNodeLoc.chainedRootNodeLoc, node.numNodes, node.numBytes, node.next, itemLoc.loc, itemLoc.item, nodeLoc.loc, nodeLoc.node, nodeLoc.next, mem.ptr, G.freeNodes, G.freeNodeLocs, G.freeRootNodeLocs, AllocStats.CurFreeNodes, AllocStats.FreeNodes, AllocStats.CurFreeNodeLocs, AllocStats.FreeNodeLocs, AllocStats.CurFreeRootNodeLocs, AllocStats.FreeRootNodeLocs, ghost net
+//@   loop 0 modifies Collection.root, rootNodeLoc.refs, rootNodeLoc.root, rootNodeLoc.next, rootNodeLoc.chainedCollection, rootNodeLoc.chainedRootNodeLoc, node.numNodes, node.numBytes, node.next, itemLoc.loc, itemLoc.item, nodeLoc.loc, nodeLoc.node, nodeLoc.next, mem.ptr, G.freeNodes, G.freeNodeLocs, G.freeRootNodeLocs, AllocStats.CurFreeNodes, AllocStats.FreeNodes, AllocStats.CurFreeNodeLocs, AllocStats.FreeNodeLocs, AllocStats.CurFreeRootNodeLocs, AllocStats.FreeRootNodeLocs, ghost net, ghost tvs
 //@   loop 0 invariant -1 <= rangeindex
 
 //@ func (*Store).Stats
 //@   props C09
 //@   requires s != nil && out != nil
 //@   modifies mapcontent(out)
+
+// ===========================================================================
+// Tree tier (C01, C13, C06): abstract tree views. tv(n)/tvFile(off) and ia(i)/iaFile(off) are
+// time-independent ghost denotations; tvL(x)/iaL(y) are what a nodeLoc/itemLoc slot denotes in
+// the current heap. The read functions postulate that what they return denotes what the slot
+// denoted and satisfies the node invariant (data-structure invariant relied upon at reads and
+// re-established at every mkNode call site).
+
+//@ functype KeyCompare(a, b) (r)
+//@   from: A11: a pure function whose sign is that of a strict total order on byte strings
+//@   ensures (r < 0) == (ord(a) < ord(b)) && (r == 0) == (ord(a) == ord(b))
+
+//@ func numInfo
+//@   props C13 C07 C19 C01
+//@   requires [C05,C18] nolocks: locks == emptyLocks()
+//@   requires o != nil
+//@   modifies nodeLoc.node, o.nodeAllocs, new ploc.Offset, new ploc.Length, new node.numNodes, new node.numBytes, new node.next, new itemLoc.loc, new itemLoc.item, new nodeLoc.loc, new nodeLoc.next, new mem.byte, ghost io.fails, ghost io.reads, ghost io.valbytes, ghost src
+//@   ensures [C07] E1: io.fails >= old(io.fails) && (io.fails > old(io.fails) ==> err != nil)
+//@   ensures [C13] exact-aggregates: err == nil ==> leftNum == cnt(tvs[left]) && leftBytes == sumb(tvs[left]) && rightNum == cnt(tvs[right]) && rightBytes == sumb(tvs[right])
+//@   ensures [C19] no-value-bytes: io.valbytes == old(io.valbytes)
+
+//@ func (*Store).split
+//@   props C01 C13 C07 C10 C19 C05 C15
+//@   from: treap.go doc ("left treap has keys < s, right treap has keys > s, middle is the node with key s or empty") restated over abstract trees; C13 heap order; C19 key-only
+//@   requires [C05,C18] nolocks: locks == emptyLocks()
+//@   requires o != nil && t != nil && t.store == o && t.compare != nil && t.rootLock != nil
+//@   requires [C01] search-tree: bst(tvs[n])
+//@   modifies nodeLoc.loc, nodeLoc.node, nodeLoc.next, node.numNodes, node.numBytes, node.next, itemLoc.loc, itemLoc.item, o.nodeAllocs, G.freeNodes, G.freeNodeLocs, AllocStats.MkNodes, AllocStats.AllocNodes, AllocStats.CurFreeNodes, AllocStats.MkNodeLocs, AllocStats.AllocNodeLocs, AllocStats.CurFreeNodeLocs, AllocStats.FreeNodeLocs, new ploc.Offset, new ploc.Length, new Item.Key, new Item.Val, new Item.Priority, new Item.Transient, new mem.byte, ghost net, ghost tvs, ghost ias, ghost io.fails, ghost io.reads, ghost io.valbytes, ghost src
+//@   decreases cnt(tvs[n])
+//@   ensures [C07] E1: io.fails >= old(io.fails) && (io.fails > old(io.fails) ==> result3 != nil)
+//@   ensures [C07] results-never-nil: result0 != nil && result1 != nil && result2 != nil
+//@   ensures [C01] left-is-the-smaller-keys: result3 == nil ==> bst(tvs[result0]) && (forall k {mem(k, tvs[result0])} {mem(k, old(tvs)[n])} :: mem(k, tvs[result0]) == (mem(k, old(tvs)[n]) && k < ord(s))) && (forall k {itemAt(k, tvs[result0])} :: mem(k, tvs[result0]) ==> itemAt(k, tvs[result0]) == itemAt(k, old(tvs)[n]))
+//@   ensures [C01] right-is-the-greater-keys: result3 == nil ==> bst(tvs[result2]) && (forall k {mem(k, tvs[result2])} {mem(k, old(tvs)[n])} :: mem(k, tvs[result2]) == (mem(k, old(tvs)[n]) && k > ord(s))) && (forall k {itemAt(k, tvs[result2])} :: mem(k, tvs[result2]) ==> itemAt(k, tvs[result2]) == itemAt(k, old(tvs)[n]))
+//@   ensures [C01] middle-is-the-key-if-present: result3 == nil ==> (isLeaf(tvs[result1]) == !mem(ord(s), old(tvs)[n])) && (!isLeaf(tvs[result1]) ==> ikey(rootItem(tvs[result1])) == ord(s) && rootItem(tvs[result1]) == itemAt(ord(s), old(tvs)[n]))
+//@   ensures [C13] heap-order-kept: result3 == nil && hp(old(tvs)[n]) ==> hp(tvs[result0]) && hp(tvs[result2]) && rootPri(tvs[result0]) <= rootPri(old(tvs)[n]) && rootPri(tvs[result2]) <= rootPri(old(tvs)[n])
+//@   ensures [C01] older-slots-keep-their-denotation: (forall x {tvs[x]} :: !fresh(x) ==> tvs[x] == old(tvs)[x]) && (forall y {ias[y]} :: !fresh(y) ==> ias[y] == old(ias)[y])
+//@   ensures [C19] no-value-bytes: io.valbytes == old(io.valbytes)
+//@   ensures [C01] older-item-slots-stay-occupied: forall y {itemLoc.loc[y]} {itemLoc.item[y]} :: !fresh(y) ==> itemLoc.loc[y] == old(itemLoc.loc[y]) && (old(itemLoc.item[y]) != nil ==> itemLoc.item[y] != nil)
+//@   ensures [C10] results-are-fresh-handles: (result0 == emptyNodeLoc || (fresh(result0) && result0.next == nil)) && (result1 == emptyNodeLoc || (fresh(result1) && result1.next == nil)) && (result2 == emptyNodeLoc || (fresh(result2) && result2.next == nil)) && (result0 == emptyNodeLoc || (result0 != result1 && result0 != result2)) && (result1 == emptyNodeLoc || result1 != result2)
